@@ -101,12 +101,13 @@ def level_facts(py: PyRepo, ci: ClassInfo, meth: str, _depth: int = 0) -> Method
     mf.node = fn
     mf.decorated = [ast.unparse(d) for d in fn.decorator_list]
     def resolver(call, env, _ev):
-        """`self._helper(..)` of the same class hierarchy (not an interpreter call, no loops): evaluated in place"""
+        """`self._helper(..)` of the same class hierarchy (not an interpreter call): evaluated in place, its `for` loops become loop events
+        of the caller with the arguments substituted"""
         f = call.func
         if isinstance(f, ast.Attribute) and isinstance(f.value, ast.Name) and f.value.id == 'self' and f.attr not in INTERP_METHODS \
                 and not f.attr.startswith('__'):
             hit = py.find_method(ci, f.attr)
-            if hit is not None and not any(isinstance(n, (ast.For, ast.While)) for n in ast.walk(hit[1])) \
+            if hit is not None and not any(isinstance(n, ast.While) for n in ast.walk(hit[1])) \
                     and not any('property' in ast.unparse(d) for d in hit[1].decorator_list):
                 decos = [ast.unparse(d).split('(')[0].split('.')[-1] for d in hit[1].decorator_list]
                 if 'staticmethod' in decos:
